@@ -81,9 +81,19 @@ let () =
       if level >= 1 && gmodel <> string_of_int (int_of_z (zgirth g)) then Buffer.add_string buf " girthmodel!=ref";
       if level >= 1 then begin
         let blocks = List.sort compare (List.map (List.map int_of_nat) (blocks_ref g)) in
-        Buffer.add_string buf (Printf.sprintf " gi=%d bl=%s ar=%s cy=%s ic=%s ip=%s"
+        let bounds = List.init (n + 5) (fun k -> z_of_int (k - 2)) in
+        (* the model of NumberOfInducedPaths (proved equal to the reference): run for every bound
+           when n <= 6 and for the bounds -1, 0, 3 when n = 7 *)
+        List.iter (fun k ->
+            if n <= 6 || List.mem (int_of_z k) [-1; 0; 3] then
+              match number_of_induced_paths_go g k with
+              | Done l -> if nats "." l <> nats "." (ipaths_bounded_ref g k) then Buffer.add_string buf " ipmodel!=ref"
+              | _ -> Buffer.add_string buf " ipmodel-panic") bounds;
+        Buffer.add_string buf (Printf.sprintf " gi=%d bl=%s ar=%s cy=%s ic=%s ip=%s icb=%s ipb=%s"
           (int_of_z (zgirth g)) (lists blocks) (nats "." (artic_ref g))
-          (nats "." (cycles_ref g)) (nats "." (icycles_ref g)) (nats "." (ipaths_ref g)))
+          (nats "." (cycles_ref g)) (nats "." (icycles_ref g)) (nats "." (ipaths_ref g))
+          (String.concat "/" (List.map (fun k -> nats "." (icycles_bounded_ref g k)) bounds))
+          (String.concat "/" (List.map (fun k -> nats "." (ipaths_bounded_ref g k)) bounds)))
       end;
       print_endline (Buffer.contents buf ^ " ## gi=" ^ gmodel)
     done
